@@ -412,6 +412,18 @@ class AOpq:
         return f"AOpq({self.why})"
 
 
+class AExt:
+    """an external collaborator (transport, callback, storage stub ...): truthy; every method call on it is
+    recorded as an EFFECT (name, args, kwargs) and returns an opaque value (or the configured result)"""
+
+    def __init__(self, name, results=None):
+        self.name = name
+        self.results = results or {}
+
+    def __repr__(self):
+        return f"AExt({self.name})"
+
+
 class AFn:
     """bound method / callable on an abstract value"""
 
@@ -543,6 +555,7 @@ class LinSys:
 
 class PathState:
     def __init__(self, script):
+        self.effects: List[Any] = []
         self.script = list(script)
         self.decisions: List[bool] = []
         self.labels: List[str] = []
@@ -557,6 +570,8 @@ class PathState:
         return self.lin.const
 
     def choose(self, label: str) -> bool:
+        if getattr(self, "no_fork", 0):
+            raise Abort("fork needed inside a tentatively merged branch")
         i = len(self.decisions)
         v = self.script[i] if i < len(self.script) else True
         self.decisions.append(v)
@@ -599,6 +614,7 @@ class Interp:
         self.depth = 0
         self.steps = 0
         self.case_depth = 0
+        self.effects: List[Any] = []
         self.summaries: Dict[str, Callable] = {}
         self.opaque_log: List[str] = []
         self.calls_seen: List[str] = []
@@ -711,7 +727,7 @@ class Interp:
             return self.st.conds[k]
         if isinstance(v, ABits):
             return len(v.items) > 0
-        if isinstance(v, (AObj, AEnum)):
+        if isinstance(v, (AObj, AEnum, AExt)):
             return True
         if isinstance(v, AOpq):
             raise Abort(f"branch on opaque value ({v.why}) at {label}")
@@ -893,17 +909,31 @@ class Frame:
         base_env = self.env
         touched = mutated_names(st)
         envs = []
+        n_eff = len(self.I.st.effects)
+        n_dec = len(self.I.st.decisions)
         for body in (st.body, st.orelse):
             memo = {}
             env_i = {k: (snapshot(v, memo) if k in touched else v) for k, v in base_env.items()}
             self.env = env_i
+            self.I.st.no_fork = getattr(self.I.st, "no_fork", 0) + 1
             try:
                 self.exec_block(body)
             except (_Ret, _Break, _Continue, PathRaise, Abort, NeedCases):
+                self.I.st.no_fork -= 1
                 self.env = base_env
+                del self.I.st.effects[n_eff:]
+                if len(self.I.st.decisions) != n_dec:
+                    raise Abort("fork inside an if-converted branch")
                 return False
             finally:
                 self.env = base_env
+            self.I.st.no_fork -= 1
+            if len(self.I.st.effects) != n_eff or len(self.I.st.decisions) != n_dec:
+                # a branch with external effects or nested forks is analysed per path, not merged
+                del self.I.st.effects[n_eff:]
+                if len(self.I.st.decisions) != n_dec:
+                    raise Abort("fork inside an if-converted branch")
+                return False
             envs.append(env_i)
         merged = {}
         try:
@@ -1278,7 +1308,15 @@ class Frame:
         if isinstance(v, AInt):
             return v
         if isinstance(v, AFin):
-            return v
+            vals = v.table
+            if not all(isinstance(t, (int, bool)) and int(t) >= 0 for t in vals):
+                raise Abort("finite function with non-integer values used as int")
+            w = max(max(int(t).bit_length() for t in vals), 1)
+            bits = []
+            for j in range(w):
+                b = mkfin(v.atoms, [(int(t) >> j) & 1 for t in vals])
+                bits.append(fin_to_bit(b) if isinstance(b, AFin) else cbit(b))
+            return AInt(bits, isbool=all(isinstance(t, bool) for t in vals))
         if isinstance(v, bool):
             return AInt([cbit(v)], isbool=True)
         if isinstance(v, int):
